@@ -212,6 +212,12 @@ func observe(c *CallState) observation {
 	default:
 		o.Outcome = "ok:" + msgHash(c.Resp) + ":" + jsonOf(c.Resp)
 	}
+	// what the server put on the wire besides the body: status and media type of the response
+	if len(c.Conns) > 0 && len(c.Conns[0].s2c.sent) > 0 {
+		if st, rh, _, err := parseResponse(c.Conns[0].s2c.sent, "POST"); err == nil {
+			o.Outcome += fmt.Sprintf(" [status=%d content-type=%s]", st, ctFamily(rh.Get("Content-Type")))
+		}
+	}
 	for _, w := range c.Wire {
 		var hs []string
 		for k, vs := range w.Header {
